@@ -65,7 +65,7 @@ def initial_text(case, kind):
     if kind == 'synth':
         return gen.file_text(case)
     per = shipped.Persona(case['persona'])
-    return gen.file_text([(n, per.text(n)) for n in case['file']], layout=case.get('layout'))
+    return gen.file_text([(n, per.text(n).replace('%', '%%')) for n in case['file']], layout=case.get('layout'))
 
 
 def evaluate(case, engine, acc=None):
